@@ -71,7 +71,7 @@ def read_client_conf():
         'tpm': Platform().default_tpm_scheme()
     }
     if path:
-        parser = ConfigParser()
+        parser = ConfigParser(interpolation=None)
         text = '[DEFAULT]\n'
         with open(path) as f:
             text += f.read()
